@@ -1,5 +1,6 @@
 import CTV.Model.Tbs
 import CTV.Lemmas.Tlv
+import CTV.Lemmas.RfcWire
 /-!
 Round-trip lemmas for the TBSCertificate model: `parseTbs` and `marshalTbs` are inverse on canonical
 TBSCertificates; the list surgery of `removeExtension` / `BuildPrecertTBS`; preservation of `wf`.
@@ -725,41 +726,24 @@ theorem eraseFirst_mid (oid : Bytes) (A B : List Ext) (x : Ext) (hx : x.oid = oi
     simp only [List.cons_append, eraseFirst, ha, if_false]
     rw [ih (fun e he => hA e (by simp [he]))]
 
-theorem encSctItems_parse (lim : SctLimits) (hmax : lim.itemMax < 65536) (l : List Bytes) (b : Bytes) (f : Nat)
-    (h : encSctItems lim l = some b) (hf : b.length ≤ f) : parseSctItemsF lim f b = some l := by
-  induction l generalizing b f with
-  | nil => simp [encSctItems] at h; subst h; cases f <;> rfl
+theorem sctItemsOfVals_map (l : List Bytes) : sctItemsOfVals (l.map CtWire.serializedSCTVal) = some l := by
+  induction l with
+  | nil => rfl
+  | cons b l ih => simp [sctItemsOfVals, CtWire.serializedSCTVal, ih]
+
+/-- reading the Go value back as a list inverts `CtWire.sctListVal` -/
+theorem sctListOfVal_sctListVal (l : List Bytes) : sctListOfVal (CtWire.sctListVal l) = some l := by
+  simp [sctListOfVal, CtWire.sctListVal, sctItemsOfVals_map]
+
+theorem concatAll_empty_item (l : List Bytes) (h : [] ∈ l) : Rfc.concatAll Rfc.serializedSCT l = none := by
+  induction l with
+  | nil => simp at h
   | cons s rest ih =>
-    simp only [encSctItems] at h
-    split at h
-    · simp at h
-    · rename_i hb
-      cases hr : encSctItems lim rest with
-      | none => simp [hr] at h
-      | some r =>
-        simp only [hr] at h
-        simp at h; subst h
-        have hs : s.length < 65536 := by omega
-        have h2 : (beEnc 2 s.length).length = 2 := beEnc_length 2 _
-        cases hc : beEnc 2 s.length ++ (s ++ r) with
-        | nil =>
-          have := congrArg List.length hc
-          simp [h2] at this
-        | cons b0 bs0 =>
-          cases f with
-          | zero => rw [hc] at hf; simp at hf
-          | succ f =>
-            simp only [parseSctItemsF]
-            rw [← hc]
-            have t2 : (beEnc 2 s.length ++ (s ++ r)).take 2 = beEnc 2 s.length := take_append_len _ _ _ h2
-            have d2 : (beEnc 2 s.length ++ (s ++ r)).drop 2 = s ++ r := drop_append_len _ _ _ h2
-            have hd : beDec (beEnc 2 s.length) = s.length := beDec_beEnc 2 _ (by simpa using hs)
-            rw [t2, d2, hd]
-            have c1 : ¬ (beEnc 2 s.length ++ (s ++ r)).length < 2 := by simp [h2]
-            have c2 : ¬ (s.length < lim.itemMin ∨ lim.itemMax < s.length) := hb
-            have c3 : ¬ (s ++ r).length < s.length := by simp
-            simp only [c1, c2, c3, if_false]
-            rw [drop_append_len s r _ rfl, take_append_len s r _ rfl]
-            rw [ih r f hr (by simp [h2] at hf; omega)]
+    simp only [Rfc.concatAll]
+    simp at h
+    rcases h with h | h
+    · subst h; simp [Rfc.serializedSCT, Rfc.varVector]
+    · rw [ih h]
+      cases Rfc.serializedSCT s <;> rfl
 
 end CTV.Tbs
